@@ -744,9 +744,17 @@ class SX:
                         continue
                     self._assign(st, node, t, ast.Subscript(value=value, slice=const(i), ctx=ast.Load()))
         elif isinstance(target, (ast.Attribute, ast.Subscript)):
-            self._store(st, node, self._target(target, st), value)
+            tgt_ = self._target(target, st)
+            self._store(st, node, tgt_, value)
             if isinstance(target, ast.Subscript):
-                self._touch_local(st, target.value, "store")     # content of a local array / list (attributes are tracked exactly by the heap)
+                b_ = target.value
+                if isinstance(b_, ast.Name) and b_.id in st.env and not is_path(st.env[b_.id]) and not isinstance(st.env[b_.id], Fn) \
+                        and isinstance(tgt_.slice, (ast.Compare, ast.BoolOp, ast.UnaryOp)) and isinstance(value, ast.Constant):
+                    # boolean-mask assignment of a constant on a local array: `v[v == 0] = c`  is  `v = np.where(v == 0, c, v)`
+                    old_ = st.env[b_.id]
+                    st.env[b_.id] = ast.Call(func=ast.Attribute(value=name("np"), attr="where", ctx=ast.Load()), args=[tgt_.slice, value, clone(old_)], keywords=[])
+                else:
+                    self._touch_local(st, target.value, "store")     # content of a local array / list (attributes are tracked exactly by the heap)
         else:
             st.notes.append(f"assignment target {type(target).__name__}")
 
@@ -1087,6 +1095,78 @@ class SX:
             return found[0]
         return None
 
+    def _summarise_loop(self, stmt, it, body, init, carried, tnames, s1, is_for):
+        """values that are known after a `for` loop whatever its body does with the elements:
+          * the index bound by `for i, x in enumerate(X[, start])` is `len(X) - 1 + start` (the index of the LAST element),
+          * a name that every iteration advances by the same constant (`n += 1`) is `initial + c * len(X)`."""
+        if not is_for or stmt.orelse:
+            return
+        if any(b.end in ("break", "return") for b in body):
+            return
+        seq, start = it, None
+        if isinstance(it, ast.Call) and isinstance(it.func, ast.Name) and it.func.id == "enumerate" and it.args:
+            seq = it.args[0]
+            start = it.args[1] if len(it.args) > 1 else next((k.value for k in it.keywords if k.arg == "start"), const(0))
+        elif isinstance(it, ast.Call) and isinstance(it.func, ast.Name) and it.func.id == "zip" and it.args:
+            seq = it.args[0]
+        n_items = ast.Call(func=name("len"), args=[clone(seq)], keywords=[])
+        rebound = set()
+        for s_ in au.stmts(stmt.body):
+            for t_ in au.assign_targets(s_):
+                rebound.update(au.assigned_names(t_))
+        if start is not None and isinstance(stmt.target, ast.Tuple) and stmt.target.elts and isinstance(stmt.target.elts[0], ast.Name) \
+                and stmt.target.elts[0].id not in rebound:
+            s1.env[stmt.target.elts[0].id] = ast.BinOp(left=ast.BinOp(left=n_items, op=ast.Sub(), right=const(1)), op=ast.Add(), right=clone(start))
+        from .. import sym as _sym
+        live = [b for b in body if b.end in ("fall", "continue")]
+        # objects (attribute paths) the body appends to: `k` items per iteration on every path -> old + k * len(X) items; any other
+        # modification makes the object unknown after the loop
+        touched = {}
+        for b in body:
+            per = {}
+            for ev, _, lps in walk_events(b):
+                if ev.kind == "call" and isinstance(ev.a.func, ast.Attribute) and ev.a.func.attr in MUTATORS and is_path(ev.a.func.value) \
+                        and not isinstance(ev.a.func.value, ast.Name):
+                    k = src(ev.a.func.value)
+                    ok = ev.a.func.attr == "append" and len(ev.a.args) == 1 and not lps
+                    per.setdefault(k, []).append(ev.a.args[0] if ok else None)
+                elif ev.kind == "aug" and is_path(ev.a) and not isinstance(ev.a, ast.Name):
+                    per.setdefault(src(ev.a), []).append(None)
+            for k, items in per.items():
+                touched.setdefault(k, []).append((b, items))
+        for k, lst in touched.items():
+            old = s1.heap.get(k, ast.parse(k, mode="eval").body)
+            regular = len(lst) == len(body) and all(b.end in ("fall", "continue") for b, _ in lst) and all(None not in items for _, items in lst) \
+                and len({len(items) for _, items in lst}) == 1
+            if regular:
+                s1.heap[k] = ast.BinOp(left=clone(old), op=ast.Add(),
+                                       right=ast.Call(func=name("__repeat__"), args=[ast.List(elts=list(lst[0][1]), ctx=ast.Load()), n_items], keywords=[]))
+            else:
+                s1.heap[k] = ast.Call(func=name("__after__"), args=[clone(old), const("loop")], keywords=[])
+        for nm in carried - tnames:
+            i0 = init.get(nm)
+            if i0 is None or isinstance(i0, Fn) or not live:
+                continue
+            steps = set()
+            for b in live:
+                fin = b.env.get(nm)
+                if fin is None:
+                    steps.add(0)
+                    continue
+                try:
+                    d = _sym.to_poly(fin, opaque=False) - _sym.Poly.atom(nm)
+                except _sym.NotPoly:
+                    steps.add(None)
+                    continue
+                steps.add(int(d.const_value()) if d.is_const() and d.const_value().denominator == 1 else None)
+            if len(steps) == 1 and None not in steps:
+                c = steps.pop()
+                if c == 0:
+                    s1.env[nm] = i0
+                else:
+                    term = n_items if c == 1 else ast.BinOp(left=const(c), op=ast.Mult(), right=n_items)
+                    s1.env[nm] = ast.BinOp(left=clone(i0), op=ast.Add(), right=term)
+
     def _loop(self, stmt, st):
         is_for = not isinstance(stmt, ast.While)
         out = []
@@ -1146,6 +1226,7 @@ class SX:
             self._event(s1, "loop", stmt, it, stmt.target if is_for else None, Loop(stmt, it, stmt.target if is_for else None, body, init, carried))
             for n in carried | tnames:
                 s1.env.pop(n, None)
+            self._summarise_loop(stmt, it, body, init, carried, tnames, s1, is_for)
             # stores made by the body are not known after the loop
             for n_ in ast.walk(ast.Module(body=list(stmt.body), type_ignores=[])):
                 tgt_ = None
